@@ -221,7 +221,15 @@ def _history(tape, ctx, case, rig, probes, faults, allow_cancel):
     ops_log = []
     desc["ops"] = ops_log
     n_ops = tape.between("h.n_ops", 3, 8)
-    fault_budget = 2
+    fault_budget = 0 if getattr(ctx, "cfg", {}).get("params", {}).get("no_faults") else 2
+
+    import hashlib
+    model_h = hashlib.sha256()
+
+    def note_model(label, obj):
+        # exact digest of fault-free results: compared across PYTHONHASHSEED values by the orchestrator
+        model_h.update(label.encode())
+        model_h.update(repr(snap(obj)).encode())
 
     primary, p_objs = case.new_estimator()
     fitted = False
@@ -360,6 +368,8 @@ def _history(tape, ctx, case, rig, probes, faults, allow_cancel):
                         raise Violation(f"C13|{tag}|same-seed-different-output|fit_transform",
                                         f"fit_transform outputs of two identical fits differ: {A.describe_diff(pval, tval)}", desc)
                 probes.hit("same-model-checked")
+                note_model(f"fit{opi}", {k: v for k, v in sorted(case.fitted_state(primary).items())
+                                         if isinstance(v, (np.ndarray, dict, list, tuple, float, int, str)) or hasattr(v, "tocsr")})
             else:
                 # a fit that *returned* although a fault fired inside it (e.g. a short reader): state is what it is;
                 # later transforms are compared against a twin fitted fault-free, so drop expectations
@@ -407,6 +417,8 @@ def _history(tape, ctx, case, rig, probes, faults, allow_cancel):
                                     f"transform of batch B{b} at step {opi} of the history {[o['op'] for o in ops_log]} differs from a pristine "
                                     f"twin's single call: {A.describe_diff(pval, mval)}", desc)
                 probes.hit("memo-compared")
+                if not any(o.get("fired") for o in ops_log):
+                    note_model(f"transform{opi}", pval)
             elif not fired:
                 raise Violation(f"C13|{tag}|transform-outcome-depends-on-history",
                                 f"transform of batch B{b} returned at step {opi} but a pristine twin's single call raised {mval}: {mtext}", desc)
@@ -423,4 +435,5 @@ def _history(tape, ctx, case, rig, probes, faults, allow_cancel):
             "sched": dict(rig.sched_stats, steps=rig.steps + rig.sched_stats.get("steps", 0)),
             "digest": None, "nontrivial": nontrivial,
             "signature_of_case": (tag, tuple(hist_kinds), tuple(fired_kinds)),
-            "outcome_digest": repr([(o["op"], o["fault"], o["fired"], o["outcome"]) for o in ops_log])}
+            "outcome_digest": repr([(o["op"], o["fault"], o["fired"], o["outcome"]) for o in ops_log]),
+            "model_digest": model_h.hexdigest()[:20], "family": tag}
